@@ -53,7 +53,13 @@ MANIFEST = dict(
           "fault is reachable; at quiescence with no empty-list event #nil = #Signals. The model is tied to the source by skeleton "
           "equalities for all 21 functions of cond.go regenerated on every run, and by a scripted stress harness on the real Cond "
           "(gated Locker + custom contexts pin the expiry/send race) whose every observed quiescent outcome must be reachable in "
-          "the model (model mode) and satisfy the property's counting laws (spec mode)."),
+          "the model (model mode) and satisfy the property's counting laws (spec mode). Review additions (Ekit/Props/C13Rev.lean): "
+          "complete thread-progress / no-deadlock enabledness (every thread inside a call can move, or is a linked parked waiter with a "
+          "live context, or waits for mu / L held by another thread; the holder of mu can always move with its own label); "
+          "#nil = #Signals under the hypothesis that at every Signal/hand-off length check some enqueued waiter is still unsignalled "
+          "(no Broadcast send, no token in flight); the general quiescent count with Broadcasts; Broadcast/Signal as whole-call "
+          "statements over a run segment; the ghost fields are never read and mean what they say; per thread every completed "
+          "Signal call performed exactly one length check."),
     note=COMMON_NOTE + (" Assumed Go semantics (definitions in Ekit/Model/Cond.lean): sync.Mutex, 1-buffered channel, select (any ready "
                         "arm, default only if none), sync.Pool (Get returns any Put item or New; items may vanish), sync.Once, SC atomics, "
                         "context Done/Err. Liveness (the holder of mu terminates, goroutines are scheduled) is not a theorem: proved is "
